@@ -32,7 +32,8 @@ RULE = ("one case = backend (every class in storage_registry) x geometry (full r
 COMPONENTS = {
     "real": ["FileArray / DictArray / SharedMemoryDictArray (all public methods)", "normalize_key, select_by_mask, "
              "shape_to_strides", "cloudpickle files on tmpfs", "FileArray's reader thread pool"],
-    "stub": ["multiprocessing.Manager", "process exit between persist and reopen", "worker process (pickled copy)"],
+    "stub": ["multiprocessing.Manager", "process exit between persist and reopen", "worker process (pickled copy)",
+             "file modification times (virtual coarse clock advanced 0/1 per write by the tape)"],
     "not_run": ["zarr backends (not importable in this image)"],
 }
 ASSUMPTIONS = [
@@ -105,7 +106,7 @@ def gen_case(tape, tier):
             ops.append({"op": "reopen", "exit": bool(tape.coin(0.5, "exit"))})
         else:
             ops.append({"op": o})
-    return {"backend": backend, "full": full, "mask": mask, "ops": ops}
+    return {"backend": backend, "full": full, "mask": mask, "ops": ops, "coarse_mtime": bool(tape.coin(0.5, "coarse-mtime"))}
 
 
 def simplify(case):
@@ -226,6 +227,7 @@ def run_case(case, exec_seed=None, exec_tape=None):
 
         idx = [0]
         arr_box = [None]
+        mt_state = {"mtimes": {}, "now": 1_700_000_000}
 
         def segment():
             """Run ops until a reopen-with-exit (which needs a new simulated process)."""
@@ -350,6 +352,8 @@ def run_case(case, exec_seed=None, exec_tape=None):
 
         while idx[0] < len(case["ops"]) and not viol:
             sim = C.new_sim(tape, root, preempt=0.0)
+            sim.fs.coarse_mtime = bool(case.get("coarse_mtime"))
+            sim.fs.mtimes, sim.fs.mtime_now = mt_state["mtimes"], mt_state["now"]
             state["sim"] = sim
             with sim:
                 try:
@@ -358,6 +362,7 @@ def run_case(case, exec_seed=None, exec_tape=None):
                     V("liveness", type(e).__name__, str(e))
             steps += sim.kernel.steps
             digests.append(sim.kernel.digest())
+            mt_state["now"] = sim.fs.mtime_now  # file timestamps are durable state: they survive the process
             simmanager.shutdown_all(sim)  # process exit: manager processes die
             if idx[0] < len(case["ops"]) and not viol:
                 # the pending op is a reopen after process exit
@@ -387,6 +392,8 @@ def run_case(case, exec_seed=None, exec_tape=None):
     probes[f"backend:{backend}"] = 1
     if m.internal:
         probes["internal_axes"] = 1
+    if case.get("coarse_mtime"):
+        probes["coarse_mtime"] = 1
     out = {"violations": viol, "probes": probes, "evaluations": 1, "yields": steps, "sim_time": 0.0,
            "exec_tape": tape.recorded(), "digest": C.digest_of(digests), "nontrivial": []}
     if probes.get("dump") and probes.get("read"):
